@@ -1,4 +1,244 @@
-/-! Line-protocol driver for property C07 (stub until the model exists). -/
+import CprocVerif.Model.Init
+import CprocVerif.Spec.Image
+import CprocVerif.Spec.InitRef
+
+/-! Line-protocol driver for property C07 (model of `init.c` / `qbe.c:emitdata`, and the spec).
+
+One output line per input line.
+
+Syntax
+* init `I`  : `<start>,<stop>,<before>,<after>,<val>`; val = `i<w>:<u>` | `f<w>:<bits>` |
+              `a<sym>+<off>` | `s<w>:<c>/<c>/…` | `o`
+* type `T`  : `i<cls>.<size>.<signed>` | `f<size>` | `p` | `A<n>(T)` |
+              `S<tag>.<size>{m;m;…}` | `U<tag>.<size>{…}`, m = `<name>:<off>.<before>.<after>:T`
+              (name `_` = anonymous member)
+* initialiser `N`: `n<int>.<nz>.<f32>.<f64>` | `a<sym>+<off>` | `s<w>.<cls>:<c>/<c>/…` | `g<tag>` |
+              `x` | `{item;item;…}`, item = `N` or designators (`[k]`, `.name`) `=` `N`
+* image     : two hex digits per byte, `[sym+addend:k]` for byte `k` of an address
+
+Ops
+* `initadd tok…` (tok = `I` or `R` = reset of `p->last`) → `<cursor list> | <list built from the head>`
+* `emit <size> I…`   → `ok <items> | <image>` or `error`
+* `image <size> I…`  → spec image of the writes in the given order
+* `parse <inc> T N`  → `ok <size> <anon> <hyp> | <writes> | <cursor list> | <head list>` (hyp: the hypotheses of `emitdata_image_ev` hold) / `error <msg>` / `undef <msg>`
+* `full <inc> T N`   → `ok <size> | <image>` / `error …` / `undef …` / `emit-error`
+* `spec <inc> T N`   → `ok <size> <nswitch> <nreinit> | <writes> | <image>` / `error <msg>`
+-/
+
+open CprocVerif.Init CprocVerif.Image CprocVerif.InitRef
+
+abbrev P := StateT (List Char) Option
+
+def peek : P (Option Char) := fun s => some (s.head?, s)
+def adv : P Unit := fun s => some ((), s.tail)
+def expectC (c : Char) : P Unit := fun s => match s with | d :: r => if c = d then some ((), r) else none | [] => none
+def failP {α} : P α := fun _ => none
+
+partial def takeWhileP (f : Char → Bool) : P String := fun s =>
+  let a := s.takeWhile f
+  some (String.ofList a, s.drop a.length)
+
+def natP : P Nat := do
+  let s ← takeWhileP Char.isDigit
+  match s.toNat? with | some n => pure n | none => failP
+
+def intP : P Int := do
+  match ← peek with
+  | some '-' => adv; let n ← natP; pure (-(n : Int))
+  | _ => let n ← natP; pure (n : Int)
+
+def isNameChar (c : Char) : Bool := c.isAlphanum || c == '_' || c == '$' || c == '@' || c == '.'
+
+partial def charsP : P (List Nat) := do
+  match ← peek with
+  | some c =>
+    if c.isDigit then
+      let n ← natP
+      match ← peek with
+      | some '/' => adv; let r ← charsP; pure (n :: r)
+      | _ => pure [n]
+    else pure []
+  | none => pure []
+
+def valP : P Val := do
+  match ← peek with
+  | some 'i' => adv; let w ← natP; expectC ':'; let u ← natP; pure (.int w u)
+  | some 'f' => adv; let w ← natP; expectC ':'; let u ← natP; pure (.flt w u)
+  | some 'a' => adv; let s ← takeWhileP isNameChar; expectC '+'; let o ← natP; pure (.addr s o)
+  | some 's' => adv; let w ← natP; expectC ':'; let cs ← charsP; pure (.str w cs)
+  | some 'o' => adv; pure .other
+  | _ => failP
+
+def initP : P Init := do
+  let a ← natP; expectC ','; let b ← natP; expectC ','; let c ← natP; expectC ','; let d ← natP; expectC ','
+  let v ← valP
+  pure ⟨a, b, c, d, v⟩
+
+mutual
+  partial def tyP : P Ty := do
+    match ← peek with
+    | some 'i' => adv; let c ← natP; expectC '.'; let s ← natP; expectC '.'; let g ← natP; pure (.scalar s (.int c (g != 0)))
+    | some 'f' => adv; let s ← natP; pure (.scalar s .flt)
+    | some 'p' => adv; pure (.scalar 8 .ptr)
+    | some 'A' => adv; let n ← natP; expectC '('; let e ← tyP; expectC ')'; pure (.array n e)
+    | some 'S' => adv; let t ← natP; expectC '.'; let s ← natP; expectC '{'; let ms ← msP; pure (.agg false t s ms)
+    | some 'U' => adv; let t ← natP; expectC '.'; let s ← natP; expectC '{'; let ms ← msP; pure (.agg true t s ms)
+    | _ => failP
+  partial def msP : P Members := do
+    match ← peek with
+    | some '}' => adv; pure .nil
+    | some ';' => adv; msP
+    | _ =>
+      let name ← takeWhileP (fun c => c.isAlphanum || c == '_'); expectC ':'
+      let o ← natP; expectC '.'; let b ← natP; expectC '.'; let a ← natP; expectC ':'
+      let t ← tyP
+      let r ← msP
+      pure (.cons (if name == "_" then none else some name) t o b a r)
+end
+
+partial def desigsP : P (List Desig) := do
+  match ← peek with
+  | some '[' => adv; let n ← natP; expectC ']'; let r ← desigsP; pure (.idx n :: r)
+  | some '.' => adv; let s ← takeWhileP (fun c => c.isAlphanum || c == '_'); let r ← desigsP; pure (.fld s :: r)
+  | some '=' => adv; pure []
+  | _ => failP
+
+mutual
+  partial def iniP : P Ini := do
+    match ← peek with
+    | some 'n' =>
+      adv; let i ← intP; expectC '.'; let nz ← natP; expectC '.'; let a ← natP; expectC '.'; let b ← natP
+      pure (.expr (.num i (nz != 0) a b))
+    | some 'a' => adv; let s ← takeWhileP isNameChar; expectC '+'; let o ← natP; pure (.expr (.addr s o))
+    | some 's' => adv; let w ← natP; expectC '.'; let c ← natP; expectC ':'; let cs ← charsP; pure (.expr (.str w c cs))
+    | some 'g' => adv; let t ← natP; pure (.expr (.agg t))
+    | some 'x' => adv; pure (.expr .nonconst)
+    | some '{' => adv; let its ← itemsP; pure (.list its)
+    | _ => failP
+  partial def itemsP : P Items := do
+    match ← peek with
+    | some '}' => adv; pure .nil
+    | some ';' => adv; itemsP
+    | some c =>
+      let ds ← if c == '[' || c == '.' then desigsP else pure []
+      let i ← iniP
+      let r ← itemsP
+      pure (.cons ds i r)
+    | none => failP
+end
+
+def runP {α} (p : P α) (s : String) : Option α :=
+  match p s.toList with
+  | some (a, []) => some a
+  | _ => none
+
+/-! printing -/
+
+def sepBy (s : String) (l : List String) : String := s.intercalate l
+
+def showVal : Val → String
+  | .int w u => s!"i{w}:{u}"
+  | .flt w b => s!"f{w}:{b}"
+  | .addr s o => s!"a{s}+{o}"
+  | .str w cs => s!"s{w}:" ++ sepBy "/" (cs.map toString)
+  | .other => "o"
+
+def showInit (i : Init) : String := s!"{i.start},{i.stop},{i.before},{i.after},{showVal i.val}"
+def showInits (l : List Init) : String := sepBy " " (l.map showInit)
+def showEv : Ev → String
+  | .add i => showInit i
+  | .clear a b => s!"c{a},{b}"
+def showEvs (l : List Ev) : String := sepBy " " (l.map showEv)
+
+def showItem : Item → String
+  | .z n => s!"z{n}"
+  | .num w v => s!"n{w}:{v}"
+  | .flt w b => s!"f{w}:{b}"
+  | .addr s o => s!"a{s}+{o}"
+  | .str w cs pad => s!"s{w}:" ++ sepBy "/" (cs.map toString) ++ s!"+{pad}"
+
+def hex2 (n : Nat) : String :=
+  let d := fun (k : Nat) => (Nat.toDigits 16 k).head!
+  String.ofList [d (n / 16 % 16), d (n % 16)]
+
+def showCell : Cell → String
+  | .byte n => hex2 n
+  | .rel s a k => s!"[{s}+{a}:{k}]"
+
+def showImage (l : List Cell) : String := String.join (l.map showCell)
+
+def showErr : Err → String
+  | .diag m => "error " ++ m
+  | .undef m => "undef " ++ m
+
+def parseTyIni (inc t n : String) : Option (Bool × Ty × Ini) :=
+  match runP tyP t, runP iniP n with
+  | some ty, some ini => some (inc != "0", ty, ini)
+  | _, _ => none
+
+def step (line : String) : String :=
+  match (line.trimAscii.toString.splitOn " ").filter (· ≠ "") with
+  | "initadd" :: toks =>
+    let r := toks.foldl (fun (acc : Option (IList × List Init)) t =>
+      match acc with
+      | none => none
+      | some (il, hd) =>
+        if t == "R" then some (il.reset, hd)
+        else match runP initP t with
+          | some i => some (il.add i, initadd hd i)
+          | none => none) (some ({}, []))
+    match r with
+    | some (il, hd) => showInits il.toList ++ " | " ++ showInits hd
+    | none => "bad-op"
+  | "emit" :: size :: toks =>
+    match size.toNat?, toks.mapM (runP initP) with
+    | some sz, some l =>
+      match emitdata sz l with
+      | some items => "ok " ++ sepBy " " (items.map showItem) ++ " | " ++ showImage (bytes items)
+      | none => "error"
+    | _, _ => "bad-op"
+  | "image" :: size :: toks =>
+    match size.toNat?, toks.mapM (runP initP) with
+    | some sz, some l => showImage (image sz l)
+    | _, _ => "bad-op"
+  | ["parse", inc, t, n] =>
+    match parseTyIni inc t n with
+    | some (inc, ty, ini) =>
+      match parseinit ty inc ini with
+      | .ok st =>
+        s!"ok {st.top} {if st.anon then 1 else 0} {if evsOKB st.top [] st.log then 1 else 0} | " ++ showEvs st.log ++ " | " ++ showInits st.il.toList ++ " | "
+          ++ showInits (st.log.foldl applyEv [])
+      | .error e => showErr e
+    | none => "bad-op"
+  | ["full", inc, t, n] =>
+    match parseTyIni inc t n with
+    | some (inc, ty, ini) =>
+      match parseinit ty inc ini with
+      | .ok st =>
+        match emitdata st.top st.il.toList with
+        | some items => s!"ok {st.top} | " ++ showImage (bytes items)
+        | none => "emit-error"
+      | .error e => showErr e
+    | none => "bad-op"
+  | ["spec", inc, t, n] =>
+    match parseTyIni inc t n with
+    | some (inc, ty, ini) =>
+      match ref ty inc ini with
+      | .ok r => s!"ok {r.size} {r.nswitch} {r.nreinit} | " ++ showInits r.writes ++ " | " ++ showImage (image r.size r.writes)
+      | .error e => "error " ++ e
+    | none => "bad-op"
+  | _ => "bad-op"
+
+partial def loop (stdin stdout : IO.FS.Stream) : IO Unit := do
+  let line ← stdin.getLine
+  if line.isEmpty then
+    return ()
+  stdout.putStrLn (step line)
+  loop stdin stdout
+
 def main (_args : List String) : IO UInt32 := do
-  IO.eprintln "drv_c07: no model yet"
-  return 2
+  let stdin ← IO.getStdin
+  let stdout ← IO.getStdout
+  loop stdin stdout
+  stdout.flush
+  return 0
